@@ -93,7 +93,13 @@ def check(ctx, rep):
     cell_text_rule(ctx, rep)
     card_size_rule(ctx, rep)
     # ---------------- verifier roles
-    vr = roles.ctor_field_roles(ctx, MV + "::new", MV, {1: "cc", 2: "h", 4: "w"}, lambda c: "coords" if util.is_call(c, "matrix_card::generate_coordinates") else None, engine="wrap") or {}
+    def same_list(c):
+        """the same elements in another owner: Vec -> Box<[u8]> (`into_boxed_slice`, `into()`)"""
+        c = strip(c)
+        while util.is_call(c) and len(c[2]) == 1 and (c[1] in BOXED or c[1] in util.IDENT_CALLS):
+            c = strip(c[2][0])
+        return c
+    vr = roles.ctor_field_roles(ctx, MV + "::new", MV, {1: "cc", 2: "h", 4: "w"}, lambda c: "coords" if util.is_call(same_list(c), "matrix_card::generate_coordinates") else None, engine="wrap") or {}
     vi = roles.inv(vr)
     if not all(k in vi for k in ("cc", "h", "w", "coords")):
         rep.violation("round-guard", MV, "roles", "cannot bind MatrixCardVerifier fields: %s" % vr)
@@ -103,7 +109,7 @@ def check(ctx, rep):
     nse = ctx.wrap.run(MV + "::new")
     good = False
     r = canon(ctx, nse, nse.ret)
-    gc = r[4][vi["coords"]]
+    gc = same_list(r[4][vi["coords"]])
     good = gc[2] == (("param", 4), ("param", 2), ("param", 1), ("param", 3))
     rep.check(good, "round-guard", MV + "::new", "coordinates-args", "coordinates = generate_coordinates(width, height, challenge_count, seed)", "generate_coordinates is called with %s" % [show(x) for x in gc[2]])
     gse = ctx.wrap.run("matrix_card::generate_coordinates")
@@ -137,6 +143,11 @@ def check(ctx, rep):
     se = ctx.wrap.run(fn)
     body = se.body
     idx_blocks = [bb for bb, i in se.term_info.items() if i.get("k") == "call" and i["name"].endswith("::index") and canon(ctx, se, i["args"][0]) == vf("coords")]
+    # (a list that is indexed in place - an array, a boxed slice - has no `index` call: the blocks
+    # that read `coordinates[..]`)
+    for (bi, si), (loc, v) in se.assigns.items():
+        if bi not in idx_blocks and any(t[0] == "index" and strip(t[1]) == vf("coords") for t in walk(v)):
+            idx_blocks.append(bi)
     env = {vf("cc"): "cc", ("param", 2): "round", vf("w"): "w", vf("h"): "h"}
     guard = None
     for bb, d, f_t, t_t in util.bool_switches(se):
@@ -325,8 +336,10 @@ def check(ctx, rep):
         if src[0] == "agg" and src[2] == "std::ops::Range":
             if src[4][0][:2] == ("int", 0) and strip(src[4][1]) == ("param", 2):
                 outer = lp
-        elif util.is_call(src, MC + "::get_number_at_coordinates"):
-            inner = (lp, src)
+        else:
+            src = _same_elements(src)
+            if util.is_call(src, MC + "::get_number_at_coordinates"):
+                inner = (lp, src)
     good = outer is not None
     rep.check(good, "server-check", fn, "rounds", "rounds 0..challenge_count in order", "the rounds visited are not 0..challenge_count in order", body.loc())
     good = False
@@ -342,15 +355,42 @@ def check(ctx, rep):
             a = tuple(strip(x) for x in src[2])
             un = None
             for t in se.term_info.values():
-                if t.get("k") == "call" and t["name"] in util.UNWRAP and strip(t["args"][0]) == strip(gm[0]["term"]):
+                if t.get("k") == "call" and t["name"] in util.UNWRAP and strip(t["args"][0]) in (strip(gm[0]["term"]), strip(gm[0].get("ret") or gm[0]["term"])):
                     un = strip(t["term"])
             xy_ok = un is not None and a[0] == ("param", 1) and a[1] == ("field", un, 0) and a[2] == ("field", un, 1)
             ev = [i for i in se.term_info.values() if i.get("k") == "call" and i["name"] == MV + "::enter_value"]
             dig_ok = len(ev) == 1 and strip(ev[0]["args"][1]) == strip(lp["elem"])
-            plain = "slice::Iter" in (lp["resolved"] or "")
+            # (the source was peeled down to the cell through element-preserving adaptors only)
+            plain = (lp["resolved"] or "").startswith(("<std::slice::Iter<", "<std::iter::Copied<", "<std::iter::Cloned<"))
             good = round_ok and xy_ok and dig_ok and plain
     how = "for each round the digits of cell (x, y) = coordinates(round) are entered in order"
-    if outer is not None and inner is None:
+    fe = [i for i in se.term_info.values() if i.get("k") == "call" and (i["name"] == "std::iter::Iterator::for_each" or i["name"].endswith(" as std::iter::Iterator>::for_each") and i["name"].startswith(("<std::slice::Iter<", "<std::iter::Copied<", "<std::iter::Cloned<"))) and util.is_call(_same_elements(i["args"][0]), MC + "::get_number_at_coordinates")]
+    if outer is not None and inner is None and len(fe) == 1:
+        # cell.iter().for_each(|digit| v.enter_value(*digit)): the closure runs once per digit, in order
+        src = _same_elements(fe[0]["args"][0])
+        gm = [i for i in se.term_info.values() if i.get("k") == "call" and i["name"] == MV + "::get_matrix_coordinates"]
+        cl = fe[0]["locargs"][1] if len(fe[0].get("locargs", ())) > 1 else None
+        if len(gm) == 1 and cl is not None and cl[0] == "agg" and cl[1] == "closure" and len(cl[4]) == 1 and len(news) == 1:
+            un = None
+            for t in se.term_info.values():
+                if t.get("k") == "call" and t["name"] in util.UNWRAP and strip(t["args"][0]) in (strip(gm[0]["term"]), strip(gm[0].get("ret") or gm[0]["term"])):
+                    un = strip(t["term"])
+            a = tuple(strip(x) for x in src[2])
+            xy_ok = un is not None and a[0] == ("param", 1) and a[1] == ("field", un, 0) and a[2] == ("field", un, 1)
+            round_ok = strip(gm[0]["args"][1]) == strip(outer["elem"])
+            cap_ok = cl[4][0] == ("ref", news[0]["dest"], True)
+            cse = ctx.flat.run(cl[2])
+            body_ok = False
+            if cse is not None and not cfg.back_edges(cse.body):
+                cc = [i for i in cse.term_info.values() if i.get("k") == "call"]
+                if len(cc) == 1 and cc[0]["name"] == MV + "::enter_value":
+                    la = cc[0]["locargs"]
+                    body_ok = la[0][0] == "ref" and strip(la[0][1]) == strip(("deref", ("field", ("param", 1), 0))) and strip(cc[0]["args"][1]) == ("param", 2)
+            idom = cfg.dominators(body)
+            every = all(cfg.dominates(idom, fe[0]["site"][1], t_) for t_, h_ in cfg.back_edges(body) if h_ == outer["next_bb"])
+            good = xy_ok and round_ok and cap_ok and body_ok and every
+            how = "for each round the digits of cell (x, y) = coordinates(round) are entered in order (for_each over the cell)"
+    elif outer is not None and inner is None:
         # the whole cell at once: the digits copied into a scratch slice of their own length, that
         # slice run through the verifier's RC4 and then through its MAC - the same as digit by
         # digit, because both are streaming (RC4: one keystream byte per data byte in order, C09's
@@ -366,7 +406,7 @@ def check(ctx, rep):
             D = strip(gn[0]["term"])
             un = None
             for t in calls:
-                if t["name"] in util.UNWRAP and strip(t["args"][0]) == strip(gm[0]["term"]):
+                if t["name"] in util.UNWRAP and strip(t["args"][0]) in (strip(gm[0]["term"]), strip(gm[0].get("ret") or gm[0]["term"])):
                     un = strip(t["term"])
             a = tuple(strip(x) for x in gn[0]["args"])
             xy_ok = un is not None and a[0] == ("param", 1) and a[1] == ("field", un, 0) and a[2] == ("field", un, 1)
@@ -407,6 +447,18 @@ def check(ctx, rep):
         good = ok and c["self_ty"].k == "array" and c["self_ty"].len == 20 and ops == {strip(ip[0]["term"]), ("param", 5)} and strip(se.ret) == strip(c["term"]) and c["op"] == "eq"
     rep.check(good, "server-check", fn, "result", "result = (computed 20-byte proof == presented proof)", "the result is not the whole-array equality of the computed and the presented proof", body.loc())
     rep.check(True, "server-check", fn, "present", "server-side check analysed", "")
+
+
+def _same_elements(it):
+    """an iterator term with the adaptors peeled that yield the same elements in the same order"""
+    it = strip(it)
+    while util.is_call(it) and len(it[2]) == 1 and it[1].split("::")[-1] in ("iter", "into_iter", "copied", "cloned", "by_ref"):
+        it = strip(it[2][0])
+    return it
+
+
+# a Vec handed over as a boxed slice: the same elements, the same length, no longer resizable
+BOXED = ("std::vec::Vec::<T, A>::into_boxed_slice", "std::boxed::<impl std::convert::From<std::vec::Vec<T, A>> for std::boxed::Box<[T], A>>::from", "alloc::boxed::<impl std::convert::From<std::vec::Vec<T, A>> for std::boxed::Box<[T], A>>::from")
 
 
 # ------------------------------------------------------------------------------------ printed cell text
